@@ -122,7 +122,8 @@ def run(chk):
         total += len(leaves)
         for i, lf in enumerate(leaves):
             if lf.kind == 'return':
-                chk.ob('R-panic', '%s leaf %d' % (ent, i), True, nontrivial=bool(lf.facts[na:]))
+                chk.ob('R-panic', '%s leaf %d' % (ent, i), True, nontrivial=bool(lf.facts[na:]),
+                       show='[%s] returns %s' % ('; '.join(guard_text(lf, na)[-3:]), show_value(lf.value, prog)[:100]))
                 continue
             fn, sp = local_site(prog, lf)
             cls = packet_class(lf)
